@@ -3,7 +3,7 @@
 //! dropped and the disk manager must report zero usage and an empty spill directory.
 
 use crate::acct::{batch, open_ipf, schema, Cmd, Ipf, Ret};
-use crate::{files_in_spill_dirs, make_env, make_sm, with_rt, CODECS};
+use crate::{files_in_spill_dirs, make_env, make_sm, report_violation, with_rt, CODECS};
 use arrow::array::RecordBatch;
 use datafusion_execution::disk_manager::DiskManager;
 use datafusion_execution::SpillFile;
@@ -199,7 +199,7 @@ fn set_fsize(cur: u64) {
 }
 
 /// the grid of limits for a scenario whose largest file has `max_len` bytes
-fn grid(max_len: u64, step: u64) -> Vec<u64> {
+pub fn grid(max_len: u64, step: u64) -> Vec<u64> {
     let mut v: Vec<u64> = (0..=(max_len + 8) / step).map(|i| i * step).collect();
     // unaligned limits: the failing write(2) is preceded by a partial write
     v.extend([1, 3, 7, 13, max_len / 2 + 1, max_len.saturating_sub(3), max_len.saturating_sub(1)]);
@@ -224,7 +224,11 @@ pub fn child_main(kind: &str, args: &Args) -> i32 {
     // fault-free run: the file sizes
     let base = run_scenario(sc, &dir, None, &noop, &noop);
     println!("BASE {}", base.to_json());
+    let only = args.opt_str("only").and_then(|x| x.parse::<u64>().ok());
     for s in grid(base.largest_file, step) {
+        if only.is_some_and(|o| o != s) {
+            continue;
+        }
         let out = run_scenario(sc, &dir, None, &|| set_fsize(s), &|| set_fsize(u64::MAX));
         let rec = if out.failed_step.is_some() { recovery_roundtrip(&dir).err() } else { None };
         println!("POINT {}", json!({"s": s, "out": out.to_json(), "recovery_error": rec}));
@@ -236,7 +240,8 @@ pub fn child_main(kind: &str, args: &Args) -> i32 {
 // Parent
 // ---------------------------------------------------------------------------------------
 
-fn judge(rep: &Report, sc: &Scn, kind: &str, s: u64, base: &ScnOut, out: &ScnOut, recovery_error: Option<String>) {
+fn judge(rep: &Report, sc: &Scn, kind: &str, s: u64, base: &ScnOut, out: &ScnOut, recovery_error: Option<String>) -> Option<(String, String)> {
+    let sc_index = scenarios().iter().position(|x| x.name == sc.name).unwrap_or(0);
     let fpv = fp_mix(fp_mix(vcommon::fp_str(sc.name), vcommon::fp_str(kind)), s);
     let failed = out.failed_step.is_some();
     rep.case(fpv, failed);
@@ -252,20 +257,25 @@ fn judge(rep: &Report, sc: &Scn, kind: &str, s: u64, base: &ScnOut, out: &ScnOut
             "steps": sc.steps.iter().map(|x| format!("{x:?}")).collect::<Vec<_>>(), "fault_free_used_after_step": base.used_after_step,
             "failed_step": out.failed_step, "error": out.error, "used_disk_space_after_failure": out.used_after_failure,
             "live_file_bytes_after_failure": out.live_bytes_after_failure, "used_disk_space_after_dropping_every_handle": out.used_after_drop,
-            "files_left_in_spill_dir": out.files_after_drop, "what": what, "expected": "used_disk_space() == 0 and an empty spill directory once every handle is dropped"})
+            "files_left_in_spill_dir": out.files_after_drop, "what": what, "expected": "used_disk_space() == 0 and an empty spill directory once every handle is dropped",
+            "replay": {"kind": "fault", "scenario_index": sc_index, "fault": kind, "limit": s}})
     };
-    if out.used_after_drop != 0 {
+    let verdict: Option<(String, String)> = if out.used_after_drop != 0 {
         let sig = if kind == "rlimit_fsize" { "usage-leak-after-write-error" } else { "usage-leak-after-quota-rejection" };
-        rep.count(&format!("c_violations/{sig}"), 1);
-        rep.violation(sig, w(format!("used_disk_space() = {} after every handle was dropped (the failing step was {:?})", out.used_after_drop, out.failed_step.map(|i| &sc.steps[i]))));
+        Some((sig.into(), format!("used_disk_space() = {} after every handle was dropped (the failing step was {:?})", out.used_after_drop, out.failed_step.map(|i| &sc.steps[i]))))
     } else if out.files_after_drop != 0 {
-        rep.violation("spill-file-not-removed", w(format!("{} file(s) left in the spill directory", out.files_after_drop)));
+        Some(("spill-file-not-removed".into(), format!("{} file(s) left in the spill directory", out.files_after_drop)))
     } else if kind == "quota" && out.max_used > s {
-        rep.violation("admitted-beyond-limit", w(format!("used_disk_space() reached {} under a quota of {s}", out.max_used)));
-    } else if let Some(e) = recovery_error {
-        rep.violation("spill-unusable-after-write-error", w(format!("a fresh spill after the fault failed: {e}")));
+        Some(("admitted-beyond-limit".into(), format!("used_disk_space() reached {} under a quota of {s}", out.max_used)))
+    } else {
+        recovery_error.map(|e| ("spill-unusable-after-write-error".to_string(), format!("a fresh spill after the fault failed: {e}")))
+    };
+    if let Some((sig, what)) = &verdict {
+        rep.count(&format!("c_violations/{sig}"), 1);
+        report_violation(rep, sig, w(what.clone()));
     }
     rep.max(&format!("c_max_used_vs_limit/{kind}"), out.max_used);
+    verdict
 }
 
 pub fn fault_stage(rep: &Report, args: &Args, root: &Path) {
@@ -294,7 +304,7 @@ pub fn fault_stage(rep: &Report, args: &Args, root: &Path) {
                 let s = v.get("s").and_then(|x| x.as_u64()).unwrap_or(0);
                 let out = ScnOut::from_json(v.get("out").unwrap_or(&Json::Null));
                 let rec = v.get("recovery_error").and_then(|x| x.as_str()).map(|x| x.to_string());
-                judge(rep, sc, "rlimit_fsize", s, b, &out, rec);
+                let _ = judge(rep, sc, "rlimit_fsize", s, b, &out, rec);
                 points += 1;
             }
         }
@@ -303,7 +313,7 @@ pub fn fault_stage(rep: &Report, args: &Args, root: &Path) {
         }
         if let Some(b) = &base {
             if b.failed_step.is_some() || b.used_after_drop != 0 {
-                rep.violation("fault-free-scenario-failed", json!({"scenario": sc.name, "out": b.to_json()}));
+                report_violation(rep, "fault-free-scenario-failed", json!({"scenario": sc.name, "out": b.to_json()}));
             }
             if i == 0 {
                 rep.sample(json!({"stage": "fault-enumeration", "scenario": sc.name, "steps": sc.steps.iter().map(|x| format!("{x:?}")).collect::<Vec<_>>(), "fault_free_used_after_step": b.used_after_step, "largest_file_bytes": b.largest_file, "limits_enumerated": points}));
@@ -319,7 +329,7 @@ pub fn fault_stage(rep: &Report, args: &Args, root: &Path) {
         for q in grid(base.max_used, step) {
             let out = run_scenario(sc, &dir, Some(q), &noop, &noop);
             let rec = if out.failed_step.is_some() { recovery_roundtrip(&dir).err() } else { None };
-            judge(rep, sc, "quota", q, &base, &out, rec);
+            let _ = judge(rep, sc, "quota", q, &base, &out, rec);
         }
     });
     for kind in ["rlimit_fsize", "quota"] {
@@ -393,4 +403,40 @@ pub fn repro_ree(args: &Args) -> i32 {
     }
     let _ = std::fs::remove_dir_all(&root);
     code
+}
+
+/// `--replay` of one fault point. Some(verdict) when it could be re-executed.
+pub fn replay_point(r: &Json, root: &Path) -> Option<Option<(String, String)>> {
+    let scs = scenarios();
+    let i = r.get("scenario_index")?.as_u64()? as usize;
+    let sc = scs.get(i)?;
+    let kind = r.get("fault")?.as_str()?;
+    let limit = r.get("limit")?.as_u64()?;
+    let rep = Report::new("C21", "fault_enumeration", &Args::parse_from(&["C21".to_string(), "--evidence".to_string(), "-".to_string()]));
+    println!("scenario {} steps {:?}; fault {kind} limit {limit}", sc.name, sc.steps);
+    let noop = || {};
+    if kind == "quota" {
+        let base = run_scenario(sc, root, None, &noop, &noop);
+        let out = run_scenario(sc, root, Some(limit), &noop, &noop);
+        println!("{}", out.to_json());
+        return Some(judge(&rep, sc, kind, limit, &base, &out, None));
+    }
+    let exe = std::env::current_exe().ok()?;
+    let o = std::process::Command::new(exe)
+        .args(["C21", "--opt", "child=fsize", "--opt", &format!("scenario={i}"), "--opt", "step=1", "--opt", &format!("only={limit}"), "--opt", &format!("dir={}", root.display())])
+        .output()
+        .ok()?;
+    let text = String::from_utf8_lossy(&o.stdout).to_string();
+    let mut base = None;
+    for line in text.lines() {
+        if let Some(j) = line.strip_prefix("BASE ") {
+            base = vcommon::serde_json_parse(j).ok().map(|v| ScnOut::from_json(&v));
+        } else if let Some(j) = line.strip_prefix("POINT ") {
+            let v = vcommon::serde_json_parse(j).ok()?;
+            let out = ScnOut::from_json(v.get("out")?);
+            println!("{}", out.to_json());
+            return Some(judge(&rep, sc, kind, limit, base.as_ref()?, &out, v.get("recovery_error").and_then(|x| x.as_str()).map(|x| x.to_string())));
+        }
+    }
+    None
 }
